@@ -180,8 +180,6 @@ def run(ctx):
     ctx.log("driver: %s, %d trace lines" % (stats, len(lines)))
     if stats["schedules"] != len(scheds):
         raise vlib.Infra("driver executed %d of %d schedules" % (stats["schedules"], len(scheds)))
-    if stats["infeasible"] + stats["aborted"] > len(scheds) // 10:
-        raise vlib.Infra("too many schedules could not be forced: %s" % stats)
     # ------------------------------------------------------------------ 4. TV
     by_id = {p["id"]: p for p in scheds}
     progs = split_progs(lines)
@@ -224,6 +222,10 @@ def run(ctx):
             pending = pending[k + 1:]
         if rejected >= 6:
             break
+    # a schedule that could not be followed means the code left the model's control flow; the validation above
+    # reports that as a violation at the step where it happened - if it did not, the run is not trustworthy
+    if not ctx.violations and stats["infeasible"] + stats["aborted"] > len(scheds) // 10:
+        raise vlib.Infra("too many schedules could not be forced although every recorded step was explained: %s" % stats)
     # property reports
     hit = {}
     for rep in reports:
